@@ -83,8 +83,22 @@ def op1? (j : Json) : Option (Except String Op1) := do
     let n ← fNat? j "n"; let c ← fNat? j "c"
     let hl ← fFloats? j "h"
     let k := hl.length
-    if k > n then some (.error "shape") else
-    some (.ok ⟨n, n, circMatrix (vecOf hl) k n c, circEval (vecOf hl) k n c⟩)
+    -- a filter longer than the axis is cropped by `fftn(h, s=n)`
+    some (.ok ⟨n, n, circMatrix (vecOf hl) k n c, circEval (vecOf hl) (min k n) n c⟩)
+  | "padmode" =>
+    let n ← fNat? j "n"; let lo ← fNat? j "lo"; let hi ← fNat? j "hi"
+    let mode ← match fStr? j "mode" with
+      | some "edge" => some PadMode.edge | some "wrap" => some PadMode.wrap
+      | some "reflect" => some PadMode.reflect | some "symmetric" => some PadMode.symmetric | _ => none
+    if n = 0 then some (.error "value") else
+    some (.ok ⟨n, lo + n + hi, padModeMatrix mode lo n, padModeEval mode lo n⟩)
+  | "padmean" =>
+    let n ← fNat? j "n"; let lo ← fNat? j "lo"; let hi ← fNat? j "hi"
+    some (.ok ⟨n, lo + n + hi, padMeanMatrix Nat.toFloat lo n, padMeanEval Nat.toFloat lo n⟩)
+  | "cdiff" =>
+    let n ← fNat? j "n"
+    if n < 2 then some (.error "value") else
+    some (.ok ⟨n, n, cdiffMatrix 2.0 n, cdiffEval 2.0 n⟩)
   | "conv" =>
     let n ← fNat? j "n"; let mode ← mode? j
     let hl ← fFloats? j "h"
@@ -109,6 +123,33 @@ instance : One Cx := ⟨⟨1.0, 0.0⟩⟩
 
 def pi : Float := 3.141592653589793
 
+def cvecOf (re im : List Float) : V Cx :=
+  let a := re.toArray
+  let b := im.toArray
+  fun i => ⟨a.getD i 0.0, b.getD i 0.0⟩
+
+/-- tabulate the first `n` entries (bind the result with `let` so that repeated reads do not recompute) -/
+def ctab (n : Nat) (v : V Cx) : Array Cx := ((List.range n).map v).toArray
+def cget (a : Array Cx) : V Cx := fun i => a.getD i 0
+
+def expC (t : Float) : Cx := ⟨Float.cos (2.0 * pi * t), Float.sin (2.0 * pi * t)⟩
+def cosC (t : Float) : Cx := ⟨Float.cos (2.0 * pi * t), 0.0⟩
+def rootC (n : Nat) (inv : Bool) : Cx :=
+  let th := 2.0 * pi / n.toFloat
+  ⟨Float.cos th, if inv then Float.sin th else -(Float.sin th)⟩
+def cscale (s : Float) : Cx := ⟨s, 0.0⟩
+
+/-- the filter spectrum `h_dft` the constructor builds over the axes `dims`: `fftn(h, s=dims)` times the shift
+    phases of the (possibly fractional) centres -/
+def phasesNd : List Nat → List Float → Nat → Cx
+  | n :: ds, c :: cs, p => shiftPhase expC cosC Nat.toFloat (-c) n (p / prodL ds) * phasesNd ds cs (p % prodL ds)
+  | _, _, _ => 1
+
+def hdftNd (dims ks : List Nat) (cen : List Float) (h : V Cx) : Array Cx :=
+  let ws := dims.map (fun n => rootC n false)
+  let H0 := ctab (prodL dims) (dftNd dims ws (padNd ks dims h))
+  ctab (prodL dims) (fun f => cget H0 f * phasesNd dims cen f)
+
 def jCMat (A : Nat → Nat → Cx) (r c : Nat) : Json :=
   let es := (List.range r).flatMap (fun i => (List.range c).map (A i))
   jObj [("r", jN r), ("c", jN c), ("re", jFs (es.map (·.re))), ("im", jFs (es.map (·.im)))]
@@ -119,27 +160,6 @@ def blocks? (j : Json) (k : String) : Option (List (M Float × Nat × Nat)) := d
     let r ← fNat? b "r"; let c ← fNat? b "c"; let d ← fFloats? b "d"
     let a := d.toArray
     some ((fun i jx => a.getD (i * c + jx) 0.0), r, c))
-
-/-- `_calc_weights` of XRayTransform2D for one angle, operation by operation (Float) -/
-def calcWeights (x0a x0b dxa dxb : Float) (nx0 nx1 : Nat) (angle y0 : Float) :
-    List Int × List Float × Float :=
-  let u0 := Float.cos angle
-  let u1 := Float.sin angle
-  let px0 := x0a * u0 + x0b * u1 - y0
-  let pdx0 := dxa * u0
-  let pdx1 := dxb * u1
-  let pxmin := min (min px0 (px0 + pdx0)) (min (px0 + pdx1) (px0 + pdx0 + pdx1))
-  let diag1 := Float.abs (pdx0 + pdx1)
-  let diag2 := Float.abs (pdx0 - pdx1)
-  let w := max diag1 diag2
-  let f := min diag1 diag2
-  let width := (w + f) / 2
-  let cells := (List.range nx0).flatMap (fun i => (List.range nx1).map (fun jx => (i, jx)))
-  let pxs := cells.map (fun (i, jx) => pxmin + pdx0 * i.toFloat + pdx1 * jx.toFloat)
-  let inds := pxs.map (fun p => (Float.floor p).toInt64.toInt)
-  let wts := pxs.map (fun p => (min (1 - (p - Float.floor p)) width) / width)
-  let margin := pxs.foldl (fun acc p => min acc (Float.abs (p - Float.round p))) 1.0
-  (inds, wts, margin)
 
 def handler : Handler := fun op j =>
   match op with
@@ -214,18 +234,100 @@ def handler : Handler := fun op j =>
   | "xrayw" => do
     let x0 ← fFloats? j "x0"; let dx ← fFloats? j "dx"
     let nx ← fNats? j "nx"; let angle ← fFloat? j "angle"; let y0 ← fFloat? j "y0"
-    let (inds, wts, margin) := calcWeights (x0.getD 0 0.0) (x0.getD 1 0.0) (dx.getD 0 0.0) (dx.getD 1 0.0)
-      (nx.getD 0 0) (nx.getD 1 0) angle y0
+    let g : XGeom Float := ⟨x0.getD 0 0.0, x0.getD 1 0.0, dx.getD 0 0.0, dx.getD 1 0.0, y0, Float.cos angle, Float.sin angle⟩
+    let fl : Float → Int := fun p => (Float.floor p).toInt64.toInt
+    let cells := (List.range (nx.getD 0 0)).flatMap (fun i => (List.range (nx.getD 1 0)).map (fun jx => (i, jx)))
+    let inds := cells.map (fun (i, jx) => g.ind fl i jx)
+    let wts := cells.map (fun (i, jx) => g.wt fl Float.ofInt i jx)
+    let margin := cells.foldl (fun acc (i, jx) => let p := g.px i jx; min acc (Float.abs (p - Float.round p))) 1.0
     some (ok (jObj [("inds", jIs inds), ("weights", jFs wts), ("margin", jF margin)]))
+  | "circspec" => do
+    -- DFT-domain path of CircularConvolve over the axes `dims` (any ndims): spectrum from the filter and the
+    -- (fractional) centres, or given directly (`h_is_dft`); dense matrix of `ifftn(H · fftn(x))`
+    let dims ← fNats? j "dims"
+    let N := prodL dims
+    let ws := dims.map (fun n => rootC n false)
+    let wis := dims.map (fun n => rootC n true)
+    let Ha : Array Cx ← match fBool? j "h_is_dft" with
+      | some true => do
+          let re ← fFloats? j "hre"; let im ← fFloats? j "him"
+          some (ctab N (cvecOf re im))
+      | _ => do
+          let ks ← fNats? j "ks"
+          let re ← fFloats? j "hre"; let im ← fFloats? j "him"
+          let cen ← fFloats? j "center"
+          some (hdftNd dims ks cen (cvecOf re im))
+    let H : V Cx := cget Ha
+    let basis (q : Nat) : V Cx := fun p => if p = q then 1 else 0
+    -- columns: `circNdSpecEval` with the spectrum of the basis vector tabulated once (common subexpression)
+    let sN := cscale (1.0 / N.toFloat)
+    let cols : Array (Array Cx) := ((List.range N).map (fun q =>
+      let xh := ctab N (dftNd dims ws (basis q))
+      ctab N (fun p => sN * dftNd dims wis (fun f => H f * cget xh f) p))).toArray
+    -- the model definition itself on the given inputs
+    let ys := (xsOf j).map (fun x => let xv := vecOf x
+      (List.range N).map (fun p => circNdSpecEval dims ws wis sN H (fun i => ⟨xv i, 0.0⟩) p))
+    some (ok (jObj [("mat", jCMat (fun p q => cget (cols.getD q #[]) p) N N),
+      ("hdft", jCMat (fun _ f => H f) 1 N),
+      ("ys", jArr (ys.map (fun y => jObj [("re", jFs (y.map (·.re))), ("im", jFs (y.map (·.im)))])))]))
+  | "circnd" => do
+    -- signal-domain N-d circular convolution with integer centres: documented circulant and tap-sum evaluation
+    let dims ← fNats? j "dims"; let ks ← fNats? j "ks"; let cs ← fNats? j "cs"
+    let re ← fFloats? j "hre"; let im ← fFloats? j "him"
+    if ks.length ≠ dims.length ∨ cs.length ≠ dims.length then some (err "shape") else
+    let N := prodL dims
+    let h := cvecOf re im
+    let ks' := (ks.zip dims).map (fun (k, n) => min k n)
+    -- crop of a filter longer than an axis: re-index the filter to the cropped shape
+    let hc : V Cx := fun q => h (ravel ks (unravel ks' q))
+    let basis (q : Nat) : V Cx := fun p => if p = q then 1 else 0
+    some (ok (jObj [("mat", jCMat (circMatrixNd ks' dims cs hc) N N),
+      ("eval", jCMat (fun p q => circNd ks' dims cs hc (basis q) p) N N)]))
+  | "convnd" => do
+    let dims ← fNats? j "dims"; let ks ← fNats? j "ks"; let mode ← mode? j
+    let byx ← fBool? j "byx"
+    let hl ← fFloats? j "h"
+    if ks.length ≠ dims.length then some (err "shape") else
+    -- Convolve: convolve(x, h): windows from (dims, ks); ConvolveByX: convolve(xfix, h): windows from (ks, dims)
+    let ss := if byx then convStarts mode ks dims else convStarts mode dims ks
+    let os := if byx then convLens mode ks dims else convLens mode dims ks
+    let rows := prodL os
+    let cols := prodL dims
+    some (ok (jObj [("r", jN rows), ("c", jN cols), ("oshape", jNs os),
+      ("mat", jMat (convMatrixNdW ss os ks dims (vecOf hl)) rows cols),
+      ("ys", jYs (convNdW ss os ks dims (vecOf hl)) rows (xsOf j))]))
+  | "proj" => do
+    -- one local axis of ProjectedGradient: coordinate fields c_m and gradient matrices G_m
+    let cs ← fFloatss? j "coords"
+    let bs ← blocks? j "grads"
+    let n ← fNat? j "n"
+    if cs.length ≠ bs.length then some (err "shape") else
+    let l : List (V Float × M Float) := (cs.zip bs).map (fun (c, (G, _, _)) => (vecOf c, G))
+    let rows := match bs with | (_, r, _) :: _ => r | [] => 0
+    some (ok (jObj [("mat", jMat (projMatrix l) rows n),
+      ("ys", jYs (fun x => projEval (l.map (fun cG => (cG.1, mulVec cG.2 n x)))) rows (xsOf j))]))
+  | "dftnd" => do
+    let dims ← fNats? j "dims"; let norm ← fStr? j "norm"; let inv ← fBool? j "inv"
+    let N := prodL dims
+    let ws := dims.map (fun n => rootC n inv)
+    let s : Float := match norm, inv with
+      | "ortho", _ => 1.0 / Float.sqrt N.toFloat
+      | "forward", false => 1.0 / N.toFloat
+      | "forward", true => 1.0
+      | _, false => 1.0
+      | _, true => 1.0 / N.toFloat
+    let basis (q : Nat) : V Cx := fun p => if p = q then 1 else 0
+    some (ok (jCMat (fun p q => cscale s * dftNd dims ws (basis q) p) N N))
   | "dftinit" => do
     let shape ← fNats? j "shape"
-    let axes := fNats? j "axes"
+    let axes := fInts? j "axes"
     let ash := fNats? j "axes_shape"
     match dftInit ⟨shape, axes, ash⟩ with
     | none => some (err "value")
     | some (ax, out, inv) =>
       let jo (o : Option (List Nat)) : Json := match o with | none => Json.null | some l => jNs l
-      some (ok (jObj [("axes", jo ax), ("output_shape", jNs out), ("inv_axes_shape", jo inv),
+      let joi (o : Option (List Int)) : Json := match o with | none => Json.null | some l => jIs l
+      some (ok (jObj [("axes", joi ax), ("output_shape", jNs out), ("inv_axes_shape", jo inv),
         ("inv_shape", jNs (dftInvShape ax out inv))]))
   | "dft1" => do
     let n ← fNat? j "n"; let m ← fNat? j "m"
